@@ -5,7 +5,9 @@
 (* event carries, computed exactly (Fractions of the recorded doubles) by  *)
 (* the projection and scaled to picoseconds:                               *)
 (*    dir       sign of (target - start)                                   *)
-(*    steps     sequence of [sgn, excess_ps]  (excess over max_dt_sec)     *)
+(*    nsteps    number of prediction steps issued                          *)
+(*    nwrong    number of steps whose sign differs from dir                *)
+(*    max_excess_ps   largest excess of a step length over max_dt_sec      *)
 (*    resid_ps  | sum of steps - (target - start) |                        *)
 (*    tiny      |target - start| < 1e-9 s                                  *)
 (* PlanOK is the property's own statement with its own 1e-9 s slack.       *)
@@ -18,9 +20,9 @@ Ev == Traces[tid][l]
 Slack == 1000      \* 1e-9 s in picoseconds
 
 PlanOK(e) ==
-  /\ \A i \in DOMAIN e.steps : e.steps[i].sgn = e.dir /\ e.steps[i].excess_ps <= Slack   \* directed, bounded
-  /\ e.resid_ps <= Slack                                                                  \* lengths sum to the difference
-  /\ (e.dir = 0 => e.steps = <<>>)                                                        \* no step when the times coincide
+  /\ e.nwrong = 0 /\ e.max_excess_ps <= Slack      \* every step points in the direction of travel and is bounded
+  /\ e.resid_ps <= Slack                           \* the lengths sum to the time difference
+  /\ (e.dir = 0 => e.nsteps = 0)                   \* no step when the two times coincide
 
 TInit == tid \in 1..Len(Traces) /\ l = 1
 TNext == l <= Len(Traces[tid]) /\ PlanOK(Ev) /\ l' = l + 1 /\ UNCHANGED tid
